@@ -279,33 +279,36 @@ def parseFallback (s : String) : Option Fallback :=
     | ["time", t] => t.toInt?.map .byTime
     | _ => none
 
-def applyConsumerOpt (b : ConsumerBuilder) (tok : String) : Option ConsumerBuilder :=
+def parseConsumerOpt (tok : String) : Option CBOp :=
   let (k, v) := kv tok
   match k with
-  | "group" => (fromHex v).map fun g => { b with group := g }
-  | "topic" => (fromHex v).map fun t => { b with assignOps := b.assignOps ++ [.topic t] }
+  | "group" => (fromHex v).map .group
+  | "topic" => (fromHex v).map .topic
   | "tp" =>
     match v.splitOn ":" with
     | [t, ps] =>
       match fromHex t, (if ps == "" then some [] else intsOf (ps.splitOn ",")) with
-      | some t, some ps => some { b with assignOps := b.assignOps ++ [.topicPartitions t ps] }
+      | some t, some ps => some (.topicPartitions t ps)
       | _, _ => none
     | _ => none
-  | "fallback" => (parseFallback v).map fun f => { b with fallback := f }
+  | "fallback" => (parseFallback v).map .fallback
   | "maxwait" =>
     match v.splitOn ":" with
     | [s, n] => match s.toNat?, n.toNat? with
-      | some s, some n => some { b with fetchMaxWait := (s, n) }
+      | some s, some n => some (.fetchMaxWait s n)
       | _, _ => none
     | _ => none
-  | "minbytes" => v.toInt?.map fun x => { b with fetchMinBytes := x }
-  | "maxbytes" => v.toInt?.map fun x => { b with fetchMaxBytes := x }
-  | "retrylimit" => v.toInt?.map fun x => { b with retryLimit := x }
-  | "crc" => some { b with crc := v == "1" }
-  | "storage" => (parseStorage v).map fun s => { b with storage := s }
-  | "idle" => v.toNat?.map fun x => { b with idleTimeoutMs := x }
-  | "clientid" => (fromHex v).map fun x => { b with clientId := some x }
+  | "minbytes" => v.toInt?.map .fetchMinBytes
+  | "maxbytes" => v.toInt?.map .fetchMaxBytes
+  | "retrylimit" => v.toInt?.map .retryLimit
+  | "crc" => some (.crc (v == "1"))
+  | "storage" => (parseStorage v).map .storage
+  | "idle" => v.toNat?.map .idleTimeout
+  | "clientid" => (fromHex v).map .clientId
   | _ => none
+
+def applyConsumerOpt (b : ConsumerBuilder) (tok : String) : Option ConsumerBuilder :=
+  (parseConsumerOpt tok).map b.apply
 
 def applyProducerOpt (b : ProducerBuilder) (tok : String) : Option ProducerBuilder :=
   let (k, v) := kv tok
@@ -341,6 +344,25 @@ def withClient {α} (s : Sess) (w : RW) (target : String) (m : CM RW α) : Optio
 
 /-- execute one OP line against the model; returns the new session, the world after it and the predicted RESULT text -/
 def runOp (env : Env RW) (s : Sess) (w : RW) (toks : List String) : Option (Sess × RW × String) :=
+  -- operations on an object that does not exist (its creation failed earlier in the scenario)
+  let missing : Bool := match toks with
+    | "c" :: _ => s.client.isNone
+    | "k" :: _ => s.cons.isNone
+    | ["poll"] => s.cons.isNone
+    | "seek" :: _ => s.cons.isNone
+    | "consume" :: _ => s.cons.isNone
+    | ["commit"] => s.cons.isNone
+    | ["subscriptions"] => s.cons.isNone
+    | "last_consumed" :: _ => s.cons.isNone
+    | ["consumer_into_client"] => s.cons.isNone
+    | "p" :: _ => s.prod.isNone
+    | "send_all" :: _ => s.prod.isNone
+    | "send" :: _ => s.prod.isNone
+    | ["producer_into_client"] => s.prod.isNone
+    | "consumer_create" :: "client" :: _ => s.client.isNone
+    | "producer_create" :: "client" :: _ => s.client.isNone
+    | _ => false
+  if missing then some (s, w, "noobj") else
   match toks with
   | ["client_new", hosts] => (hostsOf hosts).map fun hs => ({ s with client := some { cfg := { hosts := hs } } }, w, "ok")
   | tgt :: "set" :: opt :: vals =>
